@@ -65,7 +65,7 @@ INVARIANT FailedMeansClosed
 CHECK_DEADLOCK FALSE
 """
 
-ACTIONS = ["Plan", "MutMsg", "MutNum", "MutFlip", "MutDrop", "MutInsert", "MutJunk", "MutTruncate", "Start", "Deliver", "PeerClose",
+ACTIONS = ["Plan", "MutMsg", "MutNum", "MutTok", "MutFlip", "MutDrop", "MutInsert", "MutJunk", "MutTruncate", "Start", "Deliver", "PeerClose",
            "Service", "Settle"]
 _STEP = re.compile(r"\\\* <(.*?) line \d+, col \d+ to line \d+, col \d+ of module \w+>\nSTATE_\d+ ==\s*\n(.*?)\n\n", re.S)
 
@@ -364,10 +364,11 @@ def run_c32(ctx):
     workers = env.NCPU
     # three quarters of the behaviours exercise the server, one quarter the client (separate simulations: TLC draws
     # initial states uniformly and the server has far more of them); a further quarter as many behaviours per side
-    # tamper with numeric fields only (Content-Length, chunk size, status, version x byte classes)
-    all_plans = '{"msg", "num", "flip", "drop", "insert", "junk", "truncate"}'
+    # tamper only with numeric fields (Content-Length, chunk size, status, version x byte classes) or inject
+    # format / escape metacharacters into the parts an error report echoes
+    all_plans = '{"msg", "num", "tok", "flip", "drop", "insert", "junk", "truncate"}'
     runs = [("server", "s", all_plans, 0, 3 * nbeh // 4), ("client", "c", all_plans, 0, nbeh // 4),
-            ("server", "n", '{"num"}', 1, nbeh // 4), ("client", "m", '{"num"}', 1, nbeh // 8)]
+            ("server", "n", '{"num", "tok"}', 1, nbeh // 3), ("client", "m", '{"num", "tok"}', 1, nbeh // 6)]
     for kd, tag, plans, minmut, n in runs:
         res = tlc.run("Malformed", SIM_CFG % (kd, plans, minmut), spec_dir=SPEC_DIR,
                       simulate={"num": max(1, n // workers), "depth": 26, "file": prefix + tag},
